@@ -431,14 +431,25 @@ def guards_of(fi: FuncInfo, node: ast.AST, resolver: Resolver) -> List[Guard]:
             in_body = any(child is s for s in p.body)
             in_else = any(child is s for s in p.orelse)
             if in_body or in_else:
-                g = _guard_from_test(fi, p.test, params, resolver)
                 # a parameter rebound inside the guarded arm itself (the
                 # `if isinstance(unit, str): unit = parse(unit)` idiom) still has its
                 # incoming value at the test; rebinding *before* the test would not.
-                if g is not None and not _rebound_before(fi, g.param, p):
-                    out.append(Guard(g.param, g.kind, g.value, g.positive if in_body else not g.positive))
+                for g in _guards_from_branch(fi, p.test, in_body, params, resolver):
+                    if not _rebound_before(fi, g.param, p):
+                        out.append(g)
         elif isinstance(p, ast.IfExp):
-            pass
+            if child is p.body or child is p.orelse:
+                g = _guard_from_test(fi, p.test, params, resolver)
+                if g is not None and not _rebound_before(fi, g.param, p):
+                    out.append(Guard(g.param, g.kind, g.value, g.positive if child is p.body else not g.positive))
+        elif isinstance(p, ast.BoolOp):
+            # short circuit: operand i of `and` runs only if operands < i were true (of `or`: false)
+            idx = next((i for i, v in enumerate(p.values) if v is child), None)
+            if idx:
+                for v in p.values[:idx]:
+                    g = _guard_from_test(fi, v, params, resolver)
+                    if g is not None and not _rebound_before(fi, g.param, p):
+                        out.append(Guard(g.param, g.kind, g.value, g.positive if isinstance(p.op, ast.And) else not g.positive))
         # early exits: `if <test>: return/raise/continue` before `child` in the same block
         for fld in ("body", "orelse", "finalbody"):
             blk = getattr(p, fld, None)
@@ -487,6 +498,26 @@ def _rebound_before(fi: FuncInfo, param: str, test_stmt: ast.AST) -> bool:
                         return True
                     b = getattr(b, "_parent", None)
     return False
+
+
+def _guards_from_branch(fi: FuncInfo, test: ast.AST, taken: bool, params: Set[str], resolver: Resolver) -> List[Guard]:
+    """Guards implied by taking (or not taking) a branch: a conjunction that holds gives
+    all its conjuncts, a disjunction that fails gives the negation of all disjuncts."""
+    neg = False
+    t = test
+    while isinstance(t, ast.UnaryOp) and isinstance(t.op, ast.Not):
+        neg = not neg
+        t = t.operand
+    eff = taken != neg
+    if isinstance(t, ast.BoolOp) and ((isinstance(t.op, ast.And) and eff) or (isinstance(t.op, ast.Or) and not eff)):
+        out: List[Guard] = []
+        for v in t.values:
+            out += _guards_from_branch(fi, v, eff, params, resolver)
+        return out
+    g = _guard_from_test(fi, test, params, resolver)
+    if g is None:
+        return []
+    return [Guard(g.param, g.kind, g.value, g.positive if taken else not g.positive)]
 
 
 def _guard_from_test(fi: FuncInfo, test: ast.AST, params: Set[str], resolver: Resolver) -> Optional[Guard]:
